@@ -150,6 +150,15 @@ def run(ctx):
                 ctx.count("build_registry_dir:%s" % ("none" if not kws else "some"))
         finally:
             shutil.rmtree(tmp, ignore_errors=True)
+    # include / exclude are Iterable[str]: generators, map / iter objects must select exactly what the same names in a list select
+    for inc, exc in [(["hex"], []), ([], ["network", "path"]), (["base64", "shell"], ["shell"]), (["chr"], [])]:
+        want = [f.__name__ for f in get_analyzers(include=inc or None, exclude=exc or None)]
+        for kind, conv in (("generator", lambda l: (x for x in l)), ("iter", iter), ("map", lambda l: map(str, l)), ("tuple", tuple), ("frozenset", frozenset)):
+            reg = build_registry(tempfile.gettempdir() + "/verif_c18_none", include=conv(inc) if inc else None, exclude=conv(exc) if exc else None)
+            ctx.evals += 1
+            got = [f.__name__ for f in reg if hasattr(f, "__name__")]
+            if got != want:
+                ctx.violation("build_registry", [inc, exc, kind], f"include={inc} exclude={exc} passed as a {kind}: {len(got)} decoders selected, the same names in a list select {len(want)}")
     missing = os.path.join(tempfile.gettempdir(), "verif_c18_does_not_exist")
     reg = build_registry(missing, include=["chr"])
     ctx.evals += 1
